@@ -107,6 +107,17 @@ class Pool:
                 w.proc.kill()
         self.workers = []
 
+    def abort(self):
+        """Kill every worker (they may be stuck in cases that will never finish); the next run() starts fresh ones."""
+        for w in self.workers:
+            try:
+                w.proc.kill()
+            except Exception:
+                pass
+        for w in self.workers:
+            w.proc.join(timeout=2)
+        self.workers = []
+
     def __enter__(self):
         return self
 
